@@ -573,9 +573,9 @@ def sched_group(g, shape, scale):
         allk = span(nb * per)
         for i in range(nb):
             mk(allk[i::nb])
-    elif shape == "common":
+    elif shape in ("common", "commonwide"):
         # K keys common to all: K work items; 129+ exceeds the input channel (128), 33+ the result channel (32)
-        K = r.choice([1, 5, 33, 129, 200, 600])
+        K = r.choice([1, 5, 33, 129, 200, 600]) if shape == "common" else 1200
         nb = r.randint(2, 5)
         for i in range(nb):
             mk(span(K), cow=r.randrange(2))
@@ -604,6 +604,27 @@ def sched_group(g, shape, scale):
             g.emit(("sched %s gomaxprocs=%d workers=%d reps=%d%s %s" % (fn, p, w, reps, noise, L)).rstrip())
             g.count("sched:gomaxprocs=%d" % p)
             g.count("sched:workers=%d" % w)
+    # worker counts beyond the channel capacities (ParOr: spec channel max(64,2p), chunk channel 32) over a key range wide enough
+    # for 4p chunks: every goroutine of the protocol must still make progress
+    if shape in ("common", "commonwide", "disjoint", "mixed") and names:
+        for fn in PAR:
+            g.emit("sched %s gomaxprocs=%d workers=%d reps=3 %s" % (fn, r.choice([1, 4, 16]), r.choice([33, 40, 100, 150]), L))
+            g.count("sched:manyworkers")
+    # several aggregations over the SAME inputs at the same time (inputs are only read): results equal, inputs unchanged;
+    # with the race-detector build of the thorough tier any write to an input is reported
+    if len(names) >= 2:
+        for fn in PAR:
+            g.emit("concagg %s %d %d %s" % (fn, r.choice([2, 4, 8]), r.choice([0, 1, 2, 8]), L))
+            g.count("concagg:" + fn)
+        # the same with copy-on-write / zero-copy style inputs (all containers already flagged)
+        z = []
+        for x in names[:3]:
+            y = g.fresh(tag)
+            g.emit("rd %s frombuffer %s" % (y, x))
+            z.append(y)
+        if len(z) >= 2:
+            g.emit("concagg paror %d %d %s" % (r.choice([4, 8]), r.choice([1, 4]), " ".join(z)))
+            g.emit("concagg parheapor %d %d %s" % (r.choice([4, 8]), r.choice([1, 4]), " ".join(z)))
     for x in names[:2]:
         for mode in ("readfrom", "frombuffer", "mixed"):
             g.emit("concdec %d %s %s" % (r.choice([2, 4, 8, 32]), x, mode))
@@ -612,7 +633,7 @@ def sched_group(g, shape, scale):
 
 @suite("sched")
 def _sched(g, scale):
-    shapes = ["emptylist", "allempty", "single", "disjoint", "common", "common", "dups", "mixed"]
+    shapes = ["emptylist", "allempty", "single", "disjoint", "common", "common", "dups", "mixed", "commonwide"]
     for sh in shapes:
         sched_group(g, sh, scale)
     for _ in range(int(2 * scale)):
